@@ -1687,6 +1687,27 @@ impl Context {
                 .push((Arc::new(Value::None), Instruction::PushStateOffset(offset)));
         }
     }
+    /// Evaluate one alternative of a branch (an `if` branch or a match arm).
+    /// Its state cells start `start` words after the state position at the branch, and every
+    /// offset pushed while evaluating it is popped again at its end, so that every path through
+    /// the branch leaves the state position where it was at the branch.
+    fn eval_alternative<T>(&mut self, start: u64, body: impl FnOnce(&mut Self) -> T) -> T {
+        let saved_sum = self.get_ctxdata().push_sum;
+        self.get_ctxdata().next_state_offset = (start > 0).then_some(start);
+        let res = body(self);
+        let pushed = self.get_ctxdata().push_sum - saved_sum;
+        if pushed > 0 {
+            self.get_current_basicblock()
+                .0
+                .push((Arc::new(Value::None), Instruction::PopStateOffset(pushed)));
+        }
+        self.get_ctxdata().push_sum = saved_sum;
+        res
+    }
+    /// Number of state words occupied by a list of state skeletons.
+    fn states_size(states: &[StateSkeleton]) -> u64 {
+        states.iter().map(|s| s.total_size()).sum()
+    }
     fn emit_fncall(
         &mut self,
         idx: u64,
@@ -2972,35 +2993,21 @@ impl Context {
                 // the block are not determined yet. These 0s will be
                 // overwritten later.
                 let _ = self.push_inst(Instruction::JmpIf(c, 0, 0, 0));
-                //todo: state offset for branches
+                // The cells of the two branches are laid out one after the other; each branch
+                // restores the state position it started from.
+                let base = self.get_ctxdata().next_state_offset.take().unwrap_or(0);
                 //insert then block
                 let then_bidx = cond_bidx + 1;
-                let (t, _, state_t) = self.eval_block(Some(*then));
+                let (t, _, state_t) =
+                    self.eval_alternative(base, |ctx| ctx.eval_block(Some(*then)));
+                let then_size = Self::states_size(&state_t);
                 //jmp to ret is inserted in bytecodegen
                 //insert else block
                 let else_bidx = self.get_ctxdata().current_bb + 1;
-                let (e, _, state_e) = self.eval_block(*else_);
-                let then_size = state_t.iter().map(|s| s.total_size()).sum::<u64>();
-                let else_size = state_e.iter().map(|s| s.total_size()).sum::<u64>();
-                let branch_state = match then_size.cmp(&else_size) {
-                    std::cmp::Ordering::Greater => {
-                        let elseb = self.get_current_fn().body.get_mut(else_bidx).unwrap();
-                        elseb.0.push((
-                            Arc::new(Value::None),
-                            Instruction::PushStateOffset(then_size - else_size),
-                        ));
-                        state_t.clone()
-                    }
-                    std::cmp::Ordering::Less => {
-                        let thenb = self.get_current_fn().body.get_mut(then_bidx).unwrap();
-                        thenb.0.push((
-                            Arc::new(Value::None),
-                            Instruction::PushStateOffset(else_size - then_size),
-                        ));
-                        state_e.clone()
-                    }
-                    std::cmp::Ordering::Equal => state_t.clone(),
-                };
+                let (e, _, state_e) =
+                    self.eval_alternative(base + then_size, |ctx| ctx.eval_block(*else_));
+                let branch_end = base + then_size + Self::states_size(&state_e);
+                self.get_ctxdata().next_state_offset = (branch_end > 0).then_some(branch_end);
                 //insert return block
                 self.add_new_basicblock();
                 let res = self.push_inst(Instruction::Phi(t, e));
@@ -3024,7 +3031,7 @@ impl Context {
                     _ => panic!("the last block should be Jmp"),
                 }
 
-                (res, ty, [state_c, branch_state].concat())
+                (res, ty, [state_c, state_t, state_e].concat())
             }
             Expr::Match(scrutinee, arms) => {
                 // For now, implement match as a chain of if-else comparisons
